@@ -281,7 +281,9 @@ func (rr *rulesRunner) runRules(n ast.Node, tag nodetag.Value) {
 
 		matched := false
 		rule.pat.MatchNode(&rr.gogrepState, n, func(m gogrep.MatchData) {
-			matched = rr.handleMatch(rule, m)
+			if rr.handleMatch(rule, m) {
+				matched = true
+			}
 		})
 
 		if profiling.LabelsEnabled {
